@@ -61,20 +61,41 @@ def agree(spec):
     # accuracy of the differencing scheme itself: the finite-difference gradient carried by the result vs the exact one
     gex = np.asarray(p.grad(rfd.x), float)
     gscale = 1.0 + float(np.max(np.abs(gex)))
-    if mode in ("none", "2-point"):
-        h = kw.get("eps", 1e-8) if mode == "none" else (kw.get("finite_diff_rel_step") or 1.5e-8)
-        gtol_fd = 300.0 * h + 5e-6
-    elif mode == "3-point":
-        h = kw.get("finite_diff_rel_step") or 6.1e-6
-        gtol_fd = 1e3 * h * h + 5e-9
+    # per-component error budget of the scheme at the returned point: truncation (from the curvature of the objective
+    # along the coordinate, estimated with the EXACT gradient) + round-off of the differences (eps*|f|/h), with a safety
+    # factor; a wrong step, sign or coefficient gives errors of the order of the gradient itself
+    xr = np.asarray(rfd.x, float)
+    epsm = np.finfo(float).eps
+    if mode == "none":
+        hv = np.full(xr.size, float(kw.get("eps", 1e-8)))
+    elif mode in ("2-point", "3-point"):
+        # the absolute steps SciPy derives from rel_step at this point (rel_step*|x| when given, with its own fallbacks)
+        from scipy.optimize._numdiff import _compute_absolute_step
+        hv = np.abs(_compute_absolute_step(kw.get("finite_diff_rel_step"), xr, np.float64(rfd.fun), mode))
+        hv = np.where(hv > 0, hv, epsm ** 0.5)
     else:
-        h = 1.0
-        gtol_fd = 1e-10
-    if mode != "cs":      # truncation error of the scheme + round-off of the differences, eps*|f|/h
-        gtol_fd += 200.0 * np.finfo(float).eps * (1.0 + abs(rfd.fun)) / h
+        hv = np.ones(xr.size)
+    d2 = np.zeros(xr.size)      # |d2 f / dx_i^2|, |d3 f / dx_i^3| from central differences of the exact gradient
+    d3 = np.zeros(xr.size)
+    for i in range(xr.size):
+        dl = 1e-3 * (1.0 + abs(xr[i]))
+        e = np.zeros(xr.size)
+        e[i] = dl
+        gp, gm = float(np.asarray(p.grad(xr + e), float)[i]), float(np.asarray(p.grad(xr - e), float)[i])
+        d2[i] = abs(gp - gm) / (2 * dl)
+        d3[i] = abs(gp - 2.0 * float(gex[i]) + gm) / (dl * dl)
+    noise = epsm * (1.0 + abs(float(rfd.fun))) / hv
+    if mode in ("none", "2-point"):
+        allowed = 5.0 * 0.5 * hv * d2 + 50.0 * noise + 1e-9 * gscale
+    elif mode == "3-point":
+        allowed = 5.0 * hv * hv * d3 / 3.0 + 50.0 * noise + 1e-9 * gscale
+    else:
+        allowed = np.full(xr.size, 1e-10 * gscale)
     # (along a variable with lb == ub nothing can be differenced and nothing is needed: not compared)
     mov = np.asarray(p.lb) < np.asarray(p.ub)
-    gerr = float(np.max(np.abs(np.asarray(rfd.jac, float) - gex)[mov]) / gscale) if mov.any() else 0.0
+    err = np.abs(np.asarray(rfd.jac, float) - gex)
+    gerr = float(np.max((err / allowed)[mov])) if mov.any() else 0.0
+    gtol_fd = 1.0
     f = {"fun_matches_exact_gradient_solution": bool(abs(rfd.fun - rex.fun) <= TOL[mode] * scale),
          "gradient_accurate_for_the_scheme": bool(gerr <= gtol_fd),
          "x_in_box": bool(np.all(p.lb <= rfd.x) and np.all(rfd.x <= p.ub))}
